@@ -27,9 +27,28 @@ def run_prop(ctx, prop, rule, min_cells=None, require=None):
             asan_info["inconclusive"] = "%d shards of the AddressSanitizer build did not finish (no sanitizer report; see log)" % a3["shards_lost"]
     cdrv = client.build_cdriver(ctx, sanitize=True)
     blur = (a1["blur_ns"] or [1000])[0]
+    # contexts: file replaced under a live context, mmap failing at open (release and debug builds)
+    ctxs = {"evaluations": 0, "counts": {}, "mmap_failures_injected": 0}
+    vctx = []
+    for bi, binary in enumerate((rel, dbg)):
+        parts = ctx.run_shards(binary, ["contexts", "--prop", prop, "--seed", str(ctx.seed * 1000 + 50 + bi), "--count", str(1500 if q else 30000), "--blur", str(blur)], 4, 1800)
+        from .shm import crash_violations
+        vctx += crash_violations(parts)
+        for p in parts:
+            if p is None:
+                a1["shards_lost"] += 1
+                continue
+            if p.get("_crashed"):
+                continue
+            ctxs["evaluations"] += p["evaluations"]
+            ctxs["mmap_failures_injected"] += p["mmap_failures_injected"]
+            for k, v in p["counts"].items():
+                ctxs["counts"][k] = ctxs["counts"].get(k, 0) + v
+            vctx += p["violations"]
+    ctx.log("contexts: %s" % ctxs)
     n3, v3, info = client.c_parity(ctx, rel, cdrv, prop, 300000 if q else 1000000, [prop], blur)
     ctx.log("C library parity + python oracle: %d vectors %s" % (n3, info))
-    viol = v1 + v2 + v3
+    viol = v1 + v2 + v3 + vctx
     inconclusive = None
     blurs = sorted(set(a1["blur_ns"] + a2["blur_ns"]))
     if prop == "C14":
@@ -55,7 +74,7 @@ def run_prop(ctx, prop, rule, min_cells=None, require=None):
     if a1["virtual_clock_reads"] < a1["evaluations"] * 2 * 0.99 and prop != "C14":
         inconclusive = "virtual clock was not read by the code under test"
     coverage = {
-        "evaluations": a1["evaluations"] + a2["evaluations"] + n3,
+        "evaluations": a1["evaluations"] + a2["evaluations"] + n3 + ctxs["evaluations"],
         "distinct_nontrivial": a1["distinct"] + a2["distinct"],
         "rule": rule + ("; distinct counting stopped at 3e6 per shard (memory): distinct_nontrivial is a lower bound" if (a1.get("distinct_capped") or a2.get("distinct_capped")) else ""),
         "samples": s1[:2] + s2[:1],
@@ -64,6 +83,7 @@ def run_prop(ctx, prop, rule, min_cells=None, require=None):
         "outcomes_debug": a2["outcomes"],
         "chain_checks": a1["chain_checks"] + a2["chain_checks"],
         "rust_asan_sweep": asan_info,
+        "contexts": dict(ctxs, rule="per iteration one of: segment file replaced by a new inode while an older context of the process is alive / after it was closed, then a new context on the same path must answer from the new file (and follow its next publication); mmap() made to fail (ENOMEM, ENODEV, EAGAIN, EACCES) at the moment of the open: either the open is refused with that errno or the context answers like any other; same oracle as the sweep"),
         "hostile_caller_state": {"release": a1.get("hostile_caller_state"), "debug": a2.get("hostile_caller_state")},
         "causality_blur_measured_ns": blurs,
         "c_library": dict(info, vectors=n3, sanitizers="clang ASan+UBSan, -fno-sanitize-recover=all, canaries around result structs"),
